@@ -176,6 +176,8 @@ def run(tier):
             ok, why = good, ("parameter fed with literals by all %d callers" % n if good else "parameter `%s` receives non-literal text" % (f.var_name(r[1]) or r[1]))
         if not ok and f.parent in IDENTIFIER_SOURCES:
             ok, why = True, "identifier class: " + IDENTIFIER_SOURCES[f.parent]
+        elif not ok and M.only_called_from(fx, f.parent, set(IDENTIFIER_SOURCES)):
+            ok, why = True, "identifier class: helper called only from identifier-class functions"
         ck.instance("R1.canonical-keys", "%s [%s]" % (f.parent, why), where, ok=ok, nontrivial=(why != "inside canonicalising constructor"))
         if not ok:
             ck.finding("R1.canonical-keys", "R1.canonical-keys/%s" % f.parent, where,
